@@ -363,6 +363,7 @@ func (e *Engine) execMapUpdate(s *State, fr *Frame, x *ssa.MapUpdate) {
 	nn := Not(Eq(m, IntLit(0)))
 	s.addObligation("safety", name, "", x.Pos(), nn, "assignment to entry in nil map")
 	s.assume(nn)
+	e.applyMapUpdateAnchors(s, fr, x, k, v)
 	domH, valH, lenH, dk, vk, lk := e.mapParts(s, mt)
 	dom := Select(domH, m)
 	had := Select(dom, k)
